@@ -17,6 +17,17 @@ VALUE = XLError('#VALUE!')
 DATA = XLError('#GETTING_DATA')
 
 
+def release_tracebacks():
+    """
+    The error objects above are shared and raised again and again; every raise
+    adds the frames it crosses to their __traceback__, which would otherwise
+    keep growing (and keep those frames' locals alive) for the life of the process.
+    """
+    for xlerror in (ERROR, DIV_ZERO, NAME, NOT_AVAILABLE, NULL, NUM, REF, VALUE, DATA):
+        xlerror.__traceback__ = None
+        xlerror.__context__ = None
+
+
 def from_message(message):
     errdict = {
         '#ERROR!': ERROR,
